@@ -102,6 +102,11 @@ def run_scenario(sc, ctx, lines, impl):
                 x = x[0]
             rec.mark('a')
             y = mpc.input(x, senders=S)
+            if sc.get('mutate') and isinstance(x, list):
+                # the caller reuses its buffer right after the call: must not affect what was input
+                x[0] = secint(9999)
+                x.reverse()
+                x.append(secint(-1))
             yy = await mpc.gather(y)
             rec.mark('b')
             return await mpc.output(flatten(y))
@@ -116,7 +121,11 @@ def run_scenario(sc, ctx, lines, impl):
                 val = x if sc['n'] == 2 else x[0]
             rec.mark('a')
             tlog = len(points_log[pid])
-            res = await mpc.output(val, receivers=sc['R'], threshold=None if sc.get('thr_default') else thr)
+            fut = mpc.output(val, receivers=sc['R'], threshold=None if sc.get('thr_default') else thr)
+            if sc.get('mutate') and isinstance(val, list):
+                val[0] = val[0] - val[0] + 12345 if hasattr(val[0], 'share') else val[0]
+                val.append(val[0])
+            res = await fut
             rec.mark('b')
             return res, points_log[pid][tlog:]
         if kind == 'reshare':
@@ -283,6 +292,7 @@ def gen(ctx, rng, k):
         sc['S'] = s
         sc['n'] = rng.choice([1, 1, 2, 3])
         sc['scalar'] = rng.random() < 0.5
+        sc['mutate'] = rng.random() < 0.5
         if sc['n'] == 1 and sc['scalar']:
             pass
     elif kind == 'output':
@@ -293,6 +303,7 @@ def gen(ctx, rng, k):
         sc['thr'] = rng.randrange(t, 2 * t + 1)
         sc['thr_default'] = sc['thr'] == t and rng.random() < 0.5
         sc['n'] = rng.choice([1, 2])
+        sc['mutate'] = rng.random() < 0.5
     return sc
 
 
